@@ -86,7 +86,7 @@ def run(rep, tier, seed, model_ok=True, effort=1):
     items, meta = [], []
     for i in range(n):
         legacy = r.random() < 0.25
-        spec = rwgen.gen_project(r, impl, legacy=legacy, allow_mixed=False)
+        spec = rwgen.gen_project(r, impl, legacy=legacy, allow_mixed=False, tree=True)
         if not spec["old"]:
             continue
         use_vcs = r.random() < 0.5
